@@ -42,7 +42,7 @@ EXPLANATION = (
     "bits is shared with C06 (emit_io_use). NOT decided: simulated bit values."
 )
 ASSUMPTIONS = ["CPython ast parses /repo's source as the interpreter would"]
-MIN_INSTANCES = {"R-18a": 12, "R-18b": 8, "R-18c": 6}
+MIN_INSTANCES = {"R-18d": 1, "R-18a": 12, "R-18b": 8, "R-18c": 6}
 
 
 def r18a(model, ctx):
@@ -261,6 +261,38 @@ def r18c(model, ctx):
     ctx.check(ok, R, "FFBuffer.__init__:domains", "domains default to sync", "i_domain/o_domain must default to 'sync'", f"{IO}:{fi.lineno}")
 
 
+AST_PY = "amaranth/hdl/_ast.py"
+REF_IO_GETITEM = """
+n = len(self)
+if isinstance(key, int):
+    if key not in range(-n, n):
+        raise IndexError()
+    if key < 0:
+        key += n
+    return IOSlice(self, key, key + 1, src_loc_at=1)
+elif isinstance(key, slice):
+    start, stop, step = key.indices(n)
+    if step != 1:
+        return IOConcat((self[i] for i in range(start, stop, step)), src_loc_at=1)
+    return IOSlice(self, start, stop, src_loc_at=1)
+else:
+    raise TypeError()
+"""
+
+
+def r18d(model, ctx):
+    """indexing an I/O value follows Python sequence semantics (the ports of lib.io index their `io` with the same key as
+    their inversion tuple, R-18a, so the two must select the same positions): int k -> [k, k+1) with negative wrap-around,
+    slices through key.indices(len): contiguous -> IOSlice(start, stop), strided -> the wires range(start, stop, step)"""
+    from ..engine import refsem
+    R = "R-18d"
+    fn, paths = refsem.method_paths(model, f"{AST_PY}::IOValue.__getitem__", inline=False)
+    refsem.compare(ctx, R, "IOValue.__getitem__", f"{AST_PY}:{fn.lineno}", "IOValue.__getitem__", paths, [REF_IO_GETITEM],
+                   fact="int -> IOSlice(k, k+1) with negative wrap; slice -> key.indices(n): IOSlice or IOConcat over range(start, stop, step)",
+                   why="A port slices its inversion tuple with the plain Python key; the I/O value must select the same positions "
+                       "(range(start, stop, step) of key.indices(n) — re-slicing range(n) with the normalised indices misreads stop=-1).")
+
+
 def _only(rule_fn, keep):
     def wrapped(model, ctx):
         n0, v0 = len(ctx.obligations), len(ctx.violations)
@@ -270,5 +302,5 @@ def _only(rule_fn, keep):
     return wrapped
 
 
-RULES = [("R-18a", r18a), ("R-18b", r18b), ("R-18c", r18c),
+RULES = [("R-18d", r18d), ("R-18a", r18a), ("R-18b", r18b), ("R-18c", r18c),
          ("R-06c", _only(c06.r06c, lambda c: "emit_io" in c or "iobuffer" in c or "emit_instance" in c))]
